@@ -153,6 +153,19 @@ def obs_sel(op, cls, items, x):
     return o
 
 
+def obs_path(op, cls, items, path, nest='dict'):
+    """d - path (op minus_path) or x = d; x -= path (isub_path) with the path tuple into values that are mappings, realised by `nest`"""
+    d = build_map(cls, items, nest=nest)
+    def call():
+        if op == 'minus_path':
+            return d - tuple(path)
+        x = d
+        x -= tuple(path)
+        return x
+    out = outcome(lambda: enc_map(call(), d))
+    return {'op': op, 'form': nest, 'd': {'cls': cls, 'items': items}, 'path': list(path), 'nest': nest, 'out': out, 'd_after': enc_items(d)}
+
+
 def obs_select(cls, items, ks):
     d = build_map(cls, items)
     out = outcome(lambda: enc_map(d[list(ks)], d))
@@ -430,7 +443,7 @@ def s2c_sessions(ctx, log, cases, all_nests=False):
 
 
 CASE_KEYS = ('op', 'fn', 'form', 'raw', 'u', 'x', 'd', 'ks', 'o', 'blanket', 'indiv', 'k', 'cls', 'base', 'plain', 'par', 'kin', 'star', 'shape', 'order',
-             'nest', 'ocls', 'sub', 'init', 'hist')
+             'nest', 'ocls', 'sub', 'init', 'hist', 'path')
 
 
 # ---- S2C -----------------------------------------------------------------------------------------
@@ -517,6 +530,15 @@ def s2c_map(ctx, log, cases):
                 ctx.note(('plus', json.dumps([items, arg])))
                 if want['tplus'] != want['plus']:
                     ctx.note(('tplus', json.dumps([items, arg])))
+        elif kind == 'path':                               # delete a branch: d - (k1, .., kn), x = d; x -= (k1, .., kn)
+            items = norm_items(items)
+            w = norm_items(want['minus'])
+            for nest in (NESTS if not ctx.quick else (NESTS[n % 7], NESTS[(n + 3) % 7])):
+                for op in ('minus_path', 'isub_path'):
+                    o = obs_path(op, cls, items, arg, nest)
+                    log.s2c(o, map_ok(o['out'], cls, as_dict(w)) and o['out']['items'] == w and o['d_after'] == items)
+            if w != items:
+                ctx.note(('path', json.dumps([items, arg])))
         elif kind == 'ren':
             if want['collides']:
                 continue                                   # outside the property: two keys renamed onto one
@@ -838,6 +860,8 @@ def run(ctx):
                 'acyclic graph with >= 1 dependency among definitions; distinct by abstract input.  '
                 'VALUES THAT ARE MAPPINGS: every mapping over 3 keys with >= 1 nested value x every other mapping (flat / nested values) through d + other and d | other, the nested values of d '
                 'realised by every dict class (dict, dictattr, Dict, OrderedDict, defaultdict, subclasses of Dict / dictattr; quick: two of the seven per case), d and other compared DEEPLY before / after.  '
+                'DELETE A BRANCH: d - (k1, .., kn) and x = d; x -= (k1, .., kn) for every path of 2-3 names (present, absent at any depth) into every mapping over 2 keys whose values are flat, a mapping or a mapping of mappings, '
+                'nested values in every dict class: the tree without that path, same class, new object, d DEEPLY unchanged.  '
                 'SESSIONS (MC_AlgebraSes; law: a call has no memory and owns nothing of the caller): histories call ; edit ; call on the SAME objects, enumerated by TLC with the outcome expected for the '
                 'objects as they are at that moment - (a) one ulist: u fn x / ulist(w) fn u / e in u ; the owner edits u in place through the list API keeping it duplicate-free (u[i] = v, append, pop, '
                 'pop + append, reverse, del, clear, insert) or edits the RESULT in place ; any call; (b) the caller\'s d, e (two receivers of different classes, nested values in every realisation), key list K, '
@@ -859,6 +883,7 @@ def run(ctx):
     # mechanism models that must break the law (a membership memo keyed on the length; relabel adopting the caller's dict)
     s2c_sessions(ctx, log, gen(ctx, 'MC_AlgebraSes', 'MC_AlgebraSes_gen.cfg' if ctx.quick else 'MC_AlgebraSes_gent.cfg'), all_nests=False)
     if not ctx.quick:
+        ctx.mc('MC_Algebra', 'MC_Algebra_rootonly.cfg', must_fail='PathLeavesOperand', coverage=False)   # shallow copy of the root, deletion in the shared branch
         ctx.mc('MC_AlgebraSes', 'MC_AlgebraSes_memo.cfg', must_fail='MemoIsMembers', coverage=False)
         ctx.mc('MC_AlgebraSes', 'MC_AlgebraSes_adopt.cfg', must_fail='CallsOwnNothing', coverage=False)
         sim = sorted(ctx.generate('MC_AlgebraSes', 'MC_AlgebraSes_sim.cfg', simulate=1500, depth=12, seed=ctx.seed + 16),
@@ -876,6 +901,7 @@ def run(ctx):
         'mapping keys are identifier-like strings without ".", without a leading "_" and not names of dict/dictattr attributes; values are flat (None, numbers, strings, lists, tuples) or non-empty mappings of flat values (two levels in the sessions), realised by any dict class on the side of d; '
         'named deviation DictPlusIsTreeUpdate: where BOTH d and other hold a mapping under a key, Dict + other (tree_update) holds their recursive merge (the law of C15) while dictattr + other and every d | other hold other\'s value ({**d, **o}); '
         'the nested values of `other` are plain dicts (tree_update treats another dict class on the update side as a leaf, which the two statements do not settle)',
+        'd - path: a path one of whose proper prefixes ends in a value that is not a mapping (PathThroughLeaf) is outside the domain; the classes define no __isub__, so d -= path rebinds the name to d - path',
         'sessions: the owner\'s in-place edits of a ulist keep it duplicate-free (OwnerKeepsUnique - list.append of a duplicate is outside the property); sharing VALUE objects between d and a result is what {**d, **o} means, so results are only edited at their top level; '
         'relabel in sessions is spelled with the dict M plus individual keywords, collision-free',
         'relabel is exercised with collision-free renamings: individual keyword relabels alone, and a blanket rule (prefix "x_", suffix "_x", dict, callable) alone or TOGETHER WITH individual keyword relabels, which then win for the keys they name; the positional-list spelling is not',
@@ -899,6 +925,8 @@ def replay(ctx, body):
         o = obs_select(c['d']['cls'], c['d']['items'], c['ks'])
     elif op == 'multiget':
         o = obs_multiget(c['d']['cls'], c['d']['items'], c['ks'])
+    elif op in ('minus_path', 'isub_path'):
+        o = obs_path(op, c['d']['cls'], c['d']['items'], c['path'], c.get('nest', 'dict'))
     elif op == 'useq':
         o = obs_useq(c['init'], c['hist'], c.get('sub', False))
     elif op == 'mses':
